@@ -1,6 +1,592 @@
 package main
 
-import "nriverif/lib/rep"
+import (
+	"context"
+	"encoding/json"
+	"errors"
+	"fmt"
+	"net"
+	"os"
+	"path/filepath"
+	"strings"
+	"sync"
+	"syscall"
+	"time"
 
-func engineC17(f *rep.Flags, res *rep.Result) bool { return false }
-func replayC17(f *rep.Flags) int                   { return 0 }
+	"github.com/containerd/nri/pkg/adaptation"
+	"github.com/containerd/nri/pkg/api"
+	"github.com/containerd/nri/pkg/net/multiplex"
+	"github.com/containerd/ttrpc"
+
+	"nriverif/lib/full"
+	"nriverif/lib/rep"
+	"nriverif/lib/seam"
+)
+
+// rawPlugin speaks the real protocol (real mux, real ttrpc, generated
+// services) but registers with arbitrary strings and misbehaves on request.
+type rawPlugin struct {
+	name, idx string
+	behave    string // "" good | never-register | late-register | no-configure-answer | bad-mask | close-after-register | close-after-configure
+	mask      int32
+	delay     time.Duration
+
+	mu        sync.Mutex
+	configure int
+	syncs     int
+	events    int
+	regErr    error
+	conn      net.Conn
+	mux       multiplex.Mux
+	srv       *ttrpc.Server
+	cli       *ttrpc.Client
+	hang      chan struct{}
+}
+
+func (p *rawPlugin) Configure(ctx context.Context, req *api.ConfigureRequest) (*api.ConfigureResponse, error) {
+	p.mu.Lock()
+	p.configure++
+	p.mu.Unlock()
+	switch p.behave {
+	case "no-configure-answer":
+		<-p.hang
+		return nil, errors.New("too late")
+	case "close-after-configure":
+		go p.close()
+		return &api.ConfigureResponse{Events: p.mask}, nil
+	}
+	return &api.ConfigureResponse{Events: p.mask}, nil
+}
+func (p *rawPlugin) Synchronize(ctx context.Context, req *api.SynchronizeRequest) (*api.SynchronizeResponse, error) {
+	p.mu.Lock()
+	p.syncs++
+	p.mu.Unlock()
+	return &api.SynchronizeResponse{More: req.More}, nil
+}
+func (p *rawPlugin) Shutdown(context.Context, *api.Empty) (*api.Empty, error) {
+	return &api.Empty{}, nil
+}
+func (p *rawPlugin) got() (*api.Empty, error) {
+	p.mu.Lock()
+	p.events++
+	p.mu.Unlock()
+	return &api.Empty{}, nil
+}
+func (p *rawPlugin) CreateContainer(context.Context, *api.CreateContainerRequest) (*api.CreateContainerResponse, error) {
+	p.got()
+	return &api.CreateContainerResponse{}, nil
+}
+func (p *rawPlugin) UpdateContainer(context.Context, *api.UpdateContainerRequest) (*api.UpdateContainerResponse, error) {
+	p.got()
+	return &api.UpdateContainerResponse{}, nil
+}
+func (p *rawPlugin) StopContainer(context.Context, *api.StopContainerRequest) (*api.StopContainerResponse, error) {
+	p.got()
+	return &api.StopContainerResponse{}, nil
+}
+func (p *rawPlugin) UpdatePodSandbox(context.Context, *api.UpdatePodSandboxRequest) (*api.UpdatePodSandboxResponse, error) {
+	p.got()
+	return &api.UpdatePodSandboxResponse{}, nil
+}
+func (p *rawPlugin) StateChange(context.Context, *api.StateChangeEvent) (*api.Empty, error) {
+	return p.got()
+}
+
+func (p *rawPlugin) counts() (int, int, int) {
+	p.mu.Lock()
+	defer p.mu.Unlock()
+	return p.configure, p.syncs, p.events
+}
+
+func (p *rawPlugin) close() {
+	p.mu.Lock()
+	defer p.mu.Unlock()
+	if p.mux != nil {
+		p.mux.Close()
+		p.mux = nil
+	}
+	if p.conn != nil {
+		p.conn.Close()
+	}
+}
+
+// connect dials the runtime and runs the handshake in the background.
+func (p *rawPlugin) connect(sock string) error {
+	c, err := net.Dial("unix", sock)
+	if err != nil {
+		return err
+	}
+	p.conn = c
+	p.hang = make(chan struct{})
+	p.mux = multiplex.Multiplex(c)
+	l, err := p.mux.Listen(multiplex.PluginServiceConn)
+	if err != nil {
+		return err
+	}
+	srv, err := ttrpc.NewServer()
+	if err != nil {
+		return err
+	}
+	p.srv = srv
+	api.RegisterPluginService(srv, p)
+	go srv.Serve(context.Background(), l)
+	rc, err := p.mux.Open(multiplex.RuntimeServiceConn)
+	if err != nil {
+		return err
+	}
+	p.cli = ttrpc.NewClient(rc)
+	rtc := api.NewRuntimeClient(p.cli)
+	go func() {
+		switch p.behave {
+		case "never-register":
+			return
+		case "late-register":
+			time.Sleep(p.delay)
+		}
+		ctx, cancel := context.WithTimeout(context.Background(), 5*time.Second)
+		defer cancel()
+		_, err := rtc.RegisterPlugin(ctx, &api.RegisterPluginRequest{PluginName: p.name, PluginIdx: p.idx})
+		p.mu.Lock()
+		p.regErr = err
+		p.mu.Unlock()
+		if p.behave == "close-after-register" {
+			p.close()
+		}
+	}()
+	return nil
+}
+
+func validIdx(s string) bool {
+	return len(s) == 2 && s[0] >= '0' && s[0] <= '9' && s[1] >= '0' && s[1] <= '9'
+}
+
+var evtC17 = &api.StateChangeEvent{Pod: &api.PodSandbox{Id: "pod0"}, Container: &api.Container{Id: "c0"}}
+
+func waitFor(d time.Duration, f func() bool) bool {
+	for deadline := time.Now().Add(d); time.Now().Before(deadline); time.Sleep(2 * time.Millisecond) {
+		if f() {
+			return true
+		}
+	}
+	return f()
+}
+
+// ---- names / indices ----------------------------------------------------
+
+func engineNames(f *rep.Flags, res *rep.Result) {
+	adaptation.SetPluginRegistrationTimeout(2 * time.Second)
+	adaptation.SetPluginRequestTimeout(2 * time.Second)
+	alpha := []string{"0", "5", "9", "a", "-", " ", "/", "٣"}
+	var idxs []string
+	var rec func(cur string, n int)
+	rec = func(cur string, n int) {
+		idxs = append(idxs, cur)
+		if n == 3 {
+			return
+		}
+		for _, a := range alpha {
+			rec(cur+a, n+1)
+		}
+	}
+	rec("", 0)
+	namesL := []string{"", "a", "a-b", strings.Repeat("n", 200)}
+	type cs struct{ idx, name string }
+	var cases []cs
+	for _, ix := range idxs {
+		for ni, nm := range namesL {
+			if !f.Thorough() && ni >= 2 && !validIdx(ix) && len(ix) != 2 {
+				continue // quick: long / dashed names only with plausible indices
+			}
+			cases = append(cases, cs{ix, nm})
+		}
+	}
+	fail := func(sig, m string, a ...any) {
+		res.Add(f.Prop+"|names|"+sig, fmt.Sprintf(m, a...), map[string]any{"signature": sig})
+	}
+	const batch = 40
+	for start := 0; start < len(cases); start += batch {
+		if (start/batch)%f.NShards != f.Shard {
+			continue
+		}
+		end := start + batch
+		if end > len(cases) {
+			end = len(cases)
+		}
+		rt, err := full.NewRuntime()
+		if err != nil {
+			rep.Fatal(f, "%v", err)
+		}
+		if err := rt.Start(); err != nil {
+			rep.Fatal(f, "%v", err)
+		}
+		var ps []*rawPlugin
+		for _, c := range cases[start:end] {
+			p := &rawPlugin{name: c.name, idx: c.idx}
+			if err := p.connect(rt.Sock); err != nil {
+				rep.Fatal(f, "connect: %v", err)
+			}
+			ps = append(ps, p)
+		}
+		// a good plugin after all of them: must still get in
+		good := &rawPlugin{name: "good", idx: "99"}
+		good.connect(rt.Sock)
+		if !waitFor(20*time.Second, func() bool { return isActive(rt, "99-good") }) {
+			fail("blocks-later-plugins", "a well-formed plugin connecting after %d others (indices like %q) was not synchronized within 20 s", len(ps), cases[start].idx)
+		}
+		if err := rt.R.StartContainer(context.Background(), evtC17); err != nil {
+			fail("event-error", "event failed: %v", err)
+		}
+		time.Sleep(5 * time.Millisecond)
+		active := map[string]bool{}
+		for _, n := range adaptation.VerifActiveNames(rt.R) {
+			active[n] = true
+		}
+		for i, p := range ps {
+			c := cases[start+i]
+			_, syncs, events := p.counts()
+			want := c.name != "" && validIdx(c.idx)
+			res.Evaluations++
+			res.Transitions++
+			got := syncs > 0 || events > 0
+			if want && !(syncs == 1 && events == 1) {
+				fail("valid-not-activated", "plugin with name %q index %q: synchronized %d times, %d events (expected activation)", short(c.name), c.idx, syncs, events)
+			}
+			if !want && got {
+				kind := "empty-name"
+				if c.name != "" {
+					kind = "bad-index"
+				}
+				fail("invalid-activated|"+kind, "plugin with name %q index %q is not well-formed but was synchronized %d times and received %d events", short(c.name), c.idx, syncs, events)
+			}
+			p.close()
+		}
+		if _, s, e := good.counts(); s != 1 || e != 1 {
+			fail("blocks-later-plugins", "the well-formed plugin after the batch was synchronized %d times and got %d events", s, e)
+		}
+		good.close()
+		rt.Close()
+		res.States++
+	}
+	res.Distinct = res.Evaluations
+	res.Bounds["index_strings"] = len(idxs)
+	res.Bounds["names"] = len(namesL)
+	res.Bounds["handshakes"] = len(cases)
+	res.Sample(map[string]any{"index": "٣", "name": "a", "expect": "two bytes but not two ASCII digits: never synchronized, no events"})
+}
+
+func isActive(rt *full.Runtime, name string) bool {
+	for _, n := range adaptation.VerifActiveNames(rt.R) {
+		if n == name {
+			return true
+		}
+	}
+	return false
+}
+
+func short(s string) string {
+	if len(s) > 12 {
+		return s[:12] + "..."
+	}
+	return s
+}
+
+// ---- masks --------------------------------------------------------------
+
+func engineMasksC17(f *rep.Flags, res *rep.Result) {
+	env, err := seam.NewEnv()
+	if err != nil {
+		rep.Fatal(f, "%v", err)
+	}
+	var answer int32
+	fk := env.AddFake("10", "m", 0, func(_ *seam.Fake, method string, _ any) (any, error) {
+		if method == "Configure" {
+			return &api.ConfigureResponse{Events: answer}, nil
+		}
+		return &api.Empty{}, nil
+	})
+	valid := int32(api.ValidEvents)
+	nBad := 0
+	check := func(m int32) {
+		answer = m
+		err := fk.VP.Configure(context.Background(), "rt", "1", "")
+		res.Evaluations++
+		want := m&^valid == 0
+		if want && err != nil {
+			res.Add(f.Prop+"|masks|valid-rejected", fmt.Sprintf("valid mask 0x%x rejected: %v", uint32(m), err), map[string]any{"mask": m})
+		}
+		if !want && err == nil {
+			if nBad < 50 {
+				bit := 0
+				for b := 13; b < 32; b++ {
+					if m>>uint(b)&1 == 1 {
+						bit = b
+					}
+				}
+				res.Add(fmt.Sprintf("%s|masks|invalid-accepted|highest-bit=%d", f.Prop, bit), fmt.Sprintf("mask 0x%x contains undefined event bits but was accepted (plugin subscribed to 0x%x)", uint32(m), uint32(fk.VP.Events())), map[string]any{"mask": m})
+			}
+			nBad++
+		}
+		if want && err == nil {
+			exp := api.EventMask(m)
+			if m == 0 {
+				exp = api.ValidEvents
+			}
+			if fk.VP.Events() != exp {
+				res.Add(f.Prop+"|masks|wrong-subscription", fmt.Sprintf("mask 0x%x accepted but the plugin is subscribed to 0x%x", uint32(m), uint32(fk.VP.Events())), map[string]any{"mask": m})
+			}
+		}
+	}
+	if f.Thorough() {
+		// all 2^32 values, sharded by the top bits
+		per := uint64(1) << 32 / uint64(f.NShards)
+		lo := uint64(f.Shard) * per
+		hi := lo + per
+		if f.Shard == f.NShards-1 {
+			hi = 1 << 32
+		}
+		for v := lo; v < hi; v++ {
+			check(int32(uint32(v)))
+		}
+		res.Bounds["mask_values"] = "all 2^32"
+	} else {
+		if f.Shard == 0 {
+			for m := int32(0); m <= valid; m++ {
+				check(m)
+			}
+			boundary := []int32{0, 1, valid, 0x1555, 1 << 12}
+			for b := 13; b < 32; b++ {
+				for _, base := range boundary {
+					check(base | int32(uint32(1)<<uint(b)))
+				}
+				for b2 := b + 1; b2 < 32; b2++ {
+					check(int32(uint32(1)<<uint(b) | uint32(1)<<uint(b2)))
+					check(valid | int32(uint32(1)<<uint(b)|uint32(1)<<uint(b2)))
+				}
+			}
+			check(-1)
+		}
+		res.Bounds["mask_values"] = "all 8192 valid masks, every single invalid bit on 5 boundary masks, all pairs of invalid bits, all ones"
+	}
+	res.States = res.Evaluations
+	res.Transitions = res.Evaluations
+	res.Distinct = res.Evaluations
+	res.Sample(map[string]any{"mask": "0x80000001", "expect": "rejected: bit 31 is not a defined event"})
+}
+
+// ---- stalls ---------------------------------------------------------------
+
+func engineStalls(f *rep.Flags, res *rep.Result) {
+	const to = 200 * time.Millisecond
+	adaptation.SetPluginRegistrationTimeout(to)
+	adaptation.SetPluginRequestTimeout(to)
+	kinds := []string{"never-register", "late-register", "no-configure-answer", "bad-mask", "close-after-register", "close-after-configure", "bad-index", "empty-name"}
+	var vectors [][]string
+	vectors = append(vectors, nil)
+	for _, a := range kinds {
+		vectors = append(vectors, []string{a})
+		for _, b := range kinds {
+			vectors = append(vectors, []string{a, b})
+		}
+	}
+	fail := func(sig, m string, a ...any) {
+		res.Add(f.Prop+"|stalls|"+sig, fmt.Sprintf(m, a...), map[string]any{"signature": sig})
+	}
+	var mu sync.Mutex
+	var wg sync.WaitGroup
+	jobs := make(chan []string, 8)
+	for w := 0; w < 8; w++ {
+		wg.Add(1)
+		go func() {
+			defer wg.Done()
+			for vec := range jobs {
+				rt, err := full.NewRuntime()
+				if err != nil {
+					continue
+				}
+				rt.Start()
+				var bad []*rawPlugin
+				for i, k := range vec {
+					p := &rawPlugin{name: fmt.Sprintf("bad%d", i), idx: fmt.Sprintf("%02d", i+1), behave: k, delay: 3 * to}
+					switch k {
+					case "bad-mask":
+						p.mask = 1 << 20
+					case "bad-index":
+						p.idx = "5"
+					case "empty-name":
+						p.name = ""
+					}
+					p.connect(rt.Sock)
+					bad = append(bad, p)
+				}
+				good := &rawPlugin{name: "good", idx: "50"}
+				good.connect(rt.Sock)
+				horizon := time.Duration(len(vec)+1)*4*to + 8*time.Second
+				ok := waitFor(horizon, func() bool { return isActive(rt, "50-good") })
+				mu.Lock()
+				res.Evaluations++
+				res.Transitions += int64(len(vec) + 1)
+				if !ok {
+					fail("blocks-later-plugins|"+strings.Join(vec, "+"), "with stalled plugins %v ahead, a good plugin was not active within %v", vec, horizon)
+				}
+				mu.Unlock()
+				if ok {
+					rt.R.StartContainer(context.Background(), evtC17)
+					time.Sleep(5 * time.Millisecond)
+					if _, _, e := good.counts(); e != 1 {
+						mu.Lock()
+						fail("good-no-events", "the good plugin behind %v received %d events", vec, e)
+						mu.Unlock()
+					}
+				}
+				for i, p := range bad {
+					_, s, e := p.counts()
+					// a plugin that registers correctly and then drops its connection is a well-formed
+					// registration (it may or may not be synchronized before the drop is noticed)
+					dropper := strings.HasPrefix(vec[i], "close-after-")
+					if !dropper && (s > 0 || e > 0) {
+						mu.Lock()
+						fail("bad-activated|"+vec[i], "plugin misbehaving as %q was synchronized %d times and received %d events", vec[i], s, e)
+						mu.Unlock()
+					}
+					close(p.hang)
+					p.close()
+				}
+				good.close()
+				rt.Close()
+			}
+		}()
+	}
+	for i, v := range vectors {
+		if i%f.NShards == f.Shard {
+			jobs <- v
+		}
+	}
+	close(jobs)
+	wg.Wait()
+	res.States = res.Evaluations
+	res.Distinct = res.Evaluations
+	res.Bounds["stall_kinds"] = kinds
+	res.Bounds["vectors"] = len(vectors)
+	res.Bounds["timeouts_ms"] = to.Milliseconds()
+	res.Sample(map[string]any{"ahead": []string{"never-register", "no-configure-answer"}, "expect": "both time out (200 ms each), neither is synchronized; the good plugin behind them becomes active and receives events"})
+}
+
+// ---- socket ----------------------------------------------------------------
+
+func engineSocket(f *rep.Flags, res *rep.Result) {
+	fail := func(sig, m string, a ...any) {
+		res.Add(f.Prop+"|socket|"+sig, fmt.Sprintf(m, a...), map[string]any{"signature": sig})
+	}
+	base, err := os.MkdirTemp("/var/tmp", "nrisock-")
+	if err != nil {
+		rep.Fatal(f, "%v", err)
+	}
+	defer os.RemoveAll(base)
+	nop := func(context.Context, adaptation.SyncCB) error { return nil }
+	upd := func(context.Context, []*api.ContainerUpdate) ([]*api.ContainerUpdate, error) { return nil, nil }
+	// disabled external connections: nothing is served
+	{
+		sock := filepath.Join(base, "disabled", "nri.sock")
+		r, err := adaptation.New("rt", "1", nop, upd, adaptation.WithSocketPath(sock), adaptation.WithDisabledExternalConnections(), adaptation.WithPluginPath(filepath.Join(base, "none")))
+		if err != nil {
+			rep.Fatal(f, "%v", err)
+		}
+		if err := r.Start(); err != nil {
+			fail("disabled-start", "Start with disabled connections failed: %v", err)
+		}
+		res.Evaluations++
+		if _, err := os.Stat(sock); err == nil {
+			fail("disabled-serves", "a socket exists although external connections are disabled")
+		}
+		if c, err := net.DialTimeout("unix", sock, time.Second); err == nil {
+			c.Close()
+			fail("disabled-serves", "a plugin could connect although external connections are disabled")
+		}
+		r.Stop()
+	}
+	n := 0
+	for _, um := range []int{0o000, 0o002, 0o022, 0o027, 0o077} {
+		for depth := 1; depth <= 3; depth++ {
+			old := syscall.Umask(um)
+			root := filepath.Join(base, fmt.Sprintf("u%03o-d%d", um, depth))
+			os.Mkdir(root, 0o777)
+			dir := root
+			var created []string
+			for i := 0; i < depth; i++ {
+				dir = filepath.Join(dir, fmt.Sprintf("n%d", i))
+				created = append(created, dir)
+			}
+			sock := filepath.Join(dir, "nri.sock")
+			r, err := adaptation.New("rt", "1", nop, upd, adaptation.WithSocketPath(sock), adaptation.WithPluginPath(filepath.Join(base, "none")))
+			if err == nil {
+				err = r.Start()
+			}
+			syscall.Umask(old)
+			res.Evaluations++
+			n++
+			if err != nil {
+				fail("start-failed", "Start with socket %s failed: %v", sock, err)
+				continue
+			}
+			for _, d := range created {
+				st, err := os.Stat(d)
+				if err != nil {
+					fail("dir-missing", "directory %s was not created", d)
+					continue
+				}
+				if st.Mode().Perm()&0o077 != 0 {
+					fail("dir-accessible", "directory created by NRI has mode %04o (umask %03o): accessible to group/others", st.Mode().Perm(), um)
+				}
+			}
+			if c, err := net.DialTimeout("unix", sock, time.Second); err != nil {
+				fail("not-served", "cannot connect to %s: %v", sock, err)
+			} else {
+				c.Close()
+			}
+			r.Stop()
+		}
+	}
+	res.States, res.Transitions, res.Distinct = res.Evaluations, res.Evaluations, res.Evaluations
+	res.Bounds["umasks"] = []string{"000", "002", "022", "027", "077"}
+	res.Bounds["missing_path_components"] = "1-3"
+	res.Sample(map[string]any{"umask": "000", "missing_components": 3, "expect": "every created directory has no group/other permission bits"})
+}
+
+func engineC17(f *rep.Flags, res *rep.Result) bool {
+	switch f.Engine {
+	case "names":
+		res.Rule = "every index string of length 0-3 over {'0','5','9','a','-',' ','/','٣'} x names {'', a, a-b, 200 chars} registered by a raw protocol plugin (real mux + ttrpc) in batches of 40 followed by a well-formed plugin; activated iff name non-empty and index is two ASCII digits; distinct = (index, name) pairs"
+		engineNames(f, res)
+	case "masks":
+		res.Rule = "event masks answered to the real configure step: all 8192 valid masks, every single undefined bit 13..31 on boundary masks, all pairs of undefined bits (thorough: all 2^32 values); accepted iff no undefined bit; distinct = mask values"
+		engineMasksC17(f, res)
+	case "stalls":
+		res.Rule = "every vector of 0-2 misbehaving plugins (never registers, registers late, never answers Configure, invalid mask, closes after register / configure, bad index, empty name) ahead of one good plugin with 200 ms timeouts; exhaustive over vectors, free-running underneath"
+		res.Assumptions = append(res.Assumptions, "the good plugin must be active within (bad plugins + 1) x 800 ms + 8 s")
+		engineStalls(f, res)
+	case "socket":
+		res.Rule = "external connections disabled => no socket; otherwise umask in {000,002,022,027,077} x 1-3 missing path components: every directory NRI created is inaccessible to group and others; distinct = (umask, depth) pairs"
+		engineSocket(f, res)
+	default:
+		return false
+	}
+	return true
+}
+
+func replayC17(f *rep.Flags) int {
+	b, _ := os.ReadFile(f.Replay)
+	var w struct {
+		Signature string `json:"signature"`
+	}
+	json.Unmarshal(b, &w)
+	res := &rep.Result{Property: f.Prop, Bounds: map[string]any{}}
+	engineC17(f, res)
+	for _, x := range res.Findings {
+		if x.Signature == w.Signature {
+			fmt.Printf("FINDING %s: %s\nVIOLATION property=%s replay=%s\n", x.Signature, x.Message, f.Prop, f.Replay)
+			return 1
+		}
+	}
+	fmt.Println("no violation")
+	return 0
+}
